@@ -39,7 +39,7 @@ def analyse(sc, sp, r):
     until = sc["until"]
     viols = []
     oc = r.outcome
-    instant = sc["rt"]["durations"] == [0.0] and not sp.get("overrides")
+    instant = sc["rt"]["durations"] == [0.0] and not sp.get("overrides") and not sc["rt"].get("blocking")
     feats = {"groups": len(sc.get("groups") or [None]) > 1, "instant_replies": instant}
     # start = instant at which the last setup_done reply was delivered
     q_setup = [i for i, h in enumerate(hist) if h[0] in ("done", "end") and h[1] == "setup_done"]
@@ -161,6 +161,8 @@ def run_case(case, prop) -> Dict[str, Any]:
         st["fault_long_stall"] = 1
     if sc["rt"]["durations"] != [0.0]:
         st["fault_step_durations"] = 1
+    if r.stats["probes"].get("blocking_step"):
+        st["fault_blocking_step"] = r.stats["probes"]["blocking_step"]
     n_ev = sum(1 for h in r.hist if h[0] == "async_call" and h[2] == "set_event")
     if n_ev:
         st["fault_external_events"] = n_ev
